@@ -8,6 +8,7 @@ import WrglModel.Lemmas.C06Codec
 import WrglModel.Lemmas.C06Hdr
 import WrglModel.Gen.Facts
 import WrglModel.Lemmas.C06BIdx
+import WrglModel.Lemmas.C06Store
 namespace Wrgl
 
 /-! ties to the source -/
@@ -124,5 +125,46 @@ theorem C06_blockIndex_reencode (bs : Bytes) (b : BIdx) (tail : Bytes) (h : deco
 theorem C06_blockIndex_injective (a b : BIdx) (ha : a.codecOk = true) (hb : b.codecOk = true)
     (h : encodeBIdx a = encodeBIdx b) : a = b :=
   bidx_encode_injective a b ha hb h
+
+/-! ### the store as a function of its history (Model/ObjStore.lean) -/
+
+/-- What `Save*` writes is what a read of its key returns, whatever the key held before - also for
+    the table index and the table profile, whose key (the table's sum) receives different contents
+    over time. -/
+theorem C06_save_reads_back (H : Bytes → Bytes) (s : ObjStore) (kind : ObjKind) (sum content : Bytes) :
+    (storeStep H s (.save kind sum content)).get ((StoreOp.save kind sum content).key H) = some content :=
+  ObjStore.get_set_same s _ content
+
+/-- A save or delete leaves every other key as it was. -/
+theorem C06_store_op_keeps_other_keys (H : Bytes → Bytes) (s : ObjStore) (op : StoreOp) (k : Bytes)
+    (hne : k ≠ op.key H) : (storeStep H s op).get k = s.get k := by
+  cases op with
+  | save kind sum content => exact ObjStore.get_set_other s _ content k hne
+  | delete kind sum => exact ObjStore.get_del_other s _ k hne
+
+/-- After `Delete*` the key reads as absent. -/
+theorem C06_delete_unbinds (H : Bytes → Bytes) (s : ObjStore) (kind : ObjKind) (sum : Bytes) :
+    (storeStep H s (.delete kind sum)).get ((StoreOp.delete kind sum).key H) = none :=
+  ObjStore.get_del_same s _
+
+/-- Content-addressed kinds are stored under prefix ++ hash of the content. -/
+theorem C06_content_key_is_prefix_hash (H : Bytes → Bytes) (kind : ObjKind) (sum content : Bytes)
+    (h : kind.byContent = true) : (StoreOp.save kind sum content).key H = saveKey H kind.pfx content := by
+  simp [StoreOp.key, StoreOp.kind, StoreOp.ident, h, saveKey]
+
+/-- Identical content is stored once: saving it again leaves the store as it was, and no history
+    binds a key twice. -/
+theorem C06_save_again_changes_nothing (H : Bytes → Bytes) (s : ObjStore) (kind : ObjKind) (sum content : Bytes) :
+    storeStep H (storeStep H s (.save kind sum content)) (.save kind sum content)
+      = storeStep H s (.save kind sum content) :=
+  ObjStore.set_set_same s _ content
+
+theorem C06_store_keys_distinct (H : Bytes → Bytes) (ops : List StoreOp) :
+    (storeRun H [] ops).keys.Nodup :=
+  storeRun_nodup H ops [] (by simp [ObjStore.keys])
+
+/-- non-vacuity: a table profile refreshed over a stale one reads back as the fresh one -/
+example : (storeRun (fun _ => [9]) [] [.save .tableProfile [1] [10], .save .tableProfile [1] [20]]).get
+    (ObjKind.tableProfile.pfx ++ [1]) = some [20] := by decide
 
 end Wrgl
